@@ -99,7 +99,6 @@ class Capture:
         self.main = main
         self.calls = []           # NRT: (n_elements,)   RT: (bytes, target)
         self.sync_replies = 0
-        self.times = []
         self.fault_armed = False
         self.faults_injected = 0
         itf = main._osc_interface
@@ -141,7 +140,6 @@ class Capture:
                         pass
                     return
                 self.calls.append((data, target))
-                self.times.append(_time.time())
                 # stand-in for the server: every '/sync id' is answered with
                 # '/synced id', fed through the interface's receive path
                 if b'/sync' in data:
@@ -157,7 +155,6 @@ class Capture:
 
     def reset(self):
         self.calls = []
-        self.times = []
 
     def packets(self):
         """Decoded packets in emission order: [(packet, target)]."""
@@ -1224,11 +1221,16 @@ def _method_of(op):
 # ---------------------------------------------------------------------------
 # streaming routines (Buffer.send_list / get_to_list) overlapping bind() blocks
 
-def run_stream_case(m, server, cap, case, clocks, count, wait_limit=6.0):
+def run_stream_case(m, server, cap, case, clocks, count, main_lock, wait_limit=8.0):
     """Returns None (held), 'timeout' (no verdict) or raises Violation.
-    Decides on observed traffic only: every chunk of the stream reaches the
-    wire exactly once, in order, with the right offsets; chunks issued while
-    a bind() block is open travel in that block's bundle, never directly."""
+    Decides on observed traffic only, and only on logical quantities (capture
+    sequence numbers, clock order) - wall-clock waits are bounds that end in
+    'timeout', never in a key: every chunk of the stream reaches the wire
+    exactly once with the right offsets; chunks issued while a bind() block is
+    open travel in that block's bundle, never directly.
+    The main-thread forms enter and leave the block while holding the
+    library's main lock, i.e. between two routine steps, so that no send of
+    the streaming routine is half way when server.addr is swapped."""
     import random
     kind, n, ch, start = case['kind'], case['n'], case['channels'], case['start']
     w = case['wait']
@@ -1239,67 +1241,77 @@ def run_stream_case(m, server, cap, case, clocks, count, wait_limit=6.0):
     buf = m.Buffer(frames, ch, server)
     grp = m.Group(server)
     bufnum, gid = buf.bufnum, grp.node_id
+    nchunks = -(-n // (1626 if kind == 'send_list' else 1633))
     done = threading.Event()
     marks = {}
     cap.reset()
 
-    def begin():
+    def begin(clock):
+        """Starts the stream; the end is signalled logically: send_list calls
+        its action after the last chunk, get_to_list (no replies here) is
+        followed by a sentinel scheduled on the same clock at a later logical
+        time than its last request - the clock runs tasks in time order."""
         if kind == 'send_list':
             buf.send_list(lst, start, w, lambda *a: done.set())
         else:
-            buf.get_to_list(lambda *a: None, start, n, w, 30)
+            buf.get_to_list(lambda *a: None, start, n, w, 60)
+            clock.sched(w * (nchunks + 2), lambda: done.set())
 
-    def body_inside(proxy, sleeper):
-        marks['enter'] = _time.time()
-        grp.run(False)
-        begin()
-        t0 = _time.time()
-        while len(proxy.get_bundle()) - 1 < 2 and _time.time() - t0 < 2.0:
-            yield 0.005
-        yield w * (case['hold'] - 1.2)
-        grp.trace()
-        marks['pre_exit'] = _time.time()
+    class Locked:
+        """`with server.bind()` entered and left under the main lock."""
+        def __enter__(self):
+            with main_lock:
+                self.cm = server.bind()
+                self.proxy = self.cm.__enter__()
+                marks['enter'] = len(cap.calls)
+            return self.proxy
 
-    def drive(gen):
-        for d in gen:
-            _time.sleep(d)
+        def __exit__(self, *exc):
+            with main_lock:
+                marks['pre_exit'] = len(cap.calls)
+                return self.cm.__exit__(*exc)
 
     escaped = []
     form = case['form']
     try:
         if form == 'no-block':
-            begin()
+            begin(clocks['system'])
         elif form == 'start-inside':
-            with server.bind() as proxy:
-                drive(body_inside(proxy, None))
+            with Locked() as proxy:
+                grp.run(False)
+                begin(clocks['system'])
+                t0 = _time.time()         # bound only: proceed anyway
+                while len(proxy.get_bundle()) - 1 < 2 and _time.time() - t0 < 2.0:
+                    _time.sleep(0.005)
+                _time.sleep(w * (case['hold'] - 1.2))
+                grp.trace()
         elif form == 'start-outside':
-            begin()
-            t0 = _time.time()
+            begin(clocks['system'])
+            t0 = _time.time()             # bound only
             while not cap.calls and _time.time() - t0 < 2.0:
                 _time.sleep(0.003)
-            with server.bind() as proxy:
-                marks['enter'] = _time.time()
+            with Locked() as proxy:
                 grp.run(False)
-                _time.sleep(w * case['hold'])
+                _time.sleep(w * (case['hold'] + 1.4))      # >= 2.6 chunk periods
                 grp.trace()
-                marks['pre_exit'] = _time.time()
         else:       # the block lives in a routine that yields after starting the stream
             fin = threading.Event()
+            clock = clocks[case['clock']]
 
             def task():
                 try:
                     with server.bind() as proxy:
-                        marks['enter'] = _time.time()
+                        marks['enter'] = len(cap.calls)
                         grp.run(False)
-                        begin()
+                        begin(clock)
                         yield w * case['hold']
                         grp.trace()
-                        marks['pre_exit'] = _time.time()
+                        marks['pre_exit'] = len(cap.calls)
                 except Exception as e:          # noqa
                     escaped.append(e)
                 finally:
                     fin.set()
-            m.Routine.run(task, clocks[case['clock']])
+            m.Routine.run(task, clock)
             if not fin.wait(wait_limit):
                 return 'timeout'
     except Exception as e:
@@ -1307,18 +1319,9 @@ def run_stream_case(m, server, cap, case, clocks, count, wait_limit=6.0):
     if escaped:
         e = escaped[0]
         raise Violation(f'C17/stream/raises/{_site(e)}', {'tb': short_tb(e)})
-    # wait for the stream to finish: the action callback, or (get_to_list has
-    # none without replies) until no new datagram has arrived for a while
-    nchunks = -(-n // (1626 if kind == 'send_list' else 1633))
-    t0 = _time.time()
-    if kind == 'send_list':
-        if not done.wait(wait_limit):
-            return 'timeout'
-        _time.sleep(0.02)
-    else:
-        _time.sleep(w * (nchunks + 2) + 0.05)
+    if not done.wait(wait_limit):
+        return 'timeout'
     calls = list(cap.calls)
-    times = list(cap.times)
     packets = [(osc.decode(b), t) for b, t in calls]
     # ---- expected chunk sequence
     cmd = '/b_setn' if kind == 'send_list' else '/b_getn'
@@ -1356,15 +1359,17 @@ def run_stream_case(m, server, cap, case, clocks, count, wait_limit=6.0):
     count('stream_chunks_in_block_bundle', sum(1 for _, h, _k in wire if h == 'bundle'))
     count('stream_chunks_sent_directly', sum(1 for _, h, _k in wire if h == 'direct'))
     if 'enter' in marks:
-        # a thread that had already fetched server.addr when the block was
-        # entered may still deliver one datagram a moment later: only sends
-        # well inside the open block (half a chunk period after entering)
-        # decide
-        lo, hi = marks['enter'] + w / 2, marks.get('pre_exit', 1e18)
-        for mm, how, k in wire:
-            if how == 'direct' and lo <= times[k] < hi:
-                wit['seconds_after_block_entry'] = round(times[k] - marks['enter'], 4)
-                raise Violation('C17/stream/chunk-sent-directly-while-block-open', wit)
+        # logical criterion (capture sequence numbers, no clock readings): at
+        # block entry at most one send of the streaming routine can be under
+        # way with the address it had already read; two or more chunks sent
+        # directly between the entry and the exit marker were issued while the
+        # block was open
+        inside = [k for mm, how, k in wire if how == 'direct'
+                  and marks['enter'] <= k < marks.get('pre_exit', 10 ** 9)]
+        count('stream_direct_chunks_inside_block_window', len(inside))
+        if len(inside) >= 2:
+            wit['direct_chunks_between_entry_and_exit_markers'] = len(inside)
+            raise Violation('C17/stream/chunk-sent-directly-while-block-open', wit)
     # every chunk exactly once; the chunks issued inside the block (bundle,
     # sent at exit) and the ones issued outside (direct) each keep issue order
     def offs(seq):
